@@ -469,6 +469,13 @@ class StmtMixin:
         if fs.kind != 'heap':
             raise VCError('store to %s field %s' % (fs.kind, fs.fid))
         t = fs.t
+        if t.is_container and fs.nullable:
+            some = st.heap_arr(fs.fid + '$some', z3.BoolSort())
+            if isinstance(v, NoneV):
+                st.heap[fs.fid + '$some'] = z3.Store(some, obj.term, False)
+                return [st]
+            flag = getattr(v, 'some', None)
+            st.heap[fs.fid + '$some'] = z3.Store(some, obj.term, flag if flag is not None else z3.BoolVal(True))
         term = self.term(v, st, t)
         arr = st.heap_arr(fs.fid, t.sort())
         st.heap[fs.fid] = z3.Store(arr, obj.term, term)
